@@ -840,7 +840,16 @@ class Unit:
                     i += 1
                 else:
                     raise ExtractError("//@fn %s without //@endfn" % d.get("name"))
-                self.do_fn(d)
+                if closure:
+                    # a lifted closure is called by nothing else in its unit: when it cannot be extracted any more only ITS obligations are lost (the property
+                    # they belong to becomes UNDECIDED for lack of obligations); the rest of the unit stays decidable
+                    try:
+                        self.do_fn(d)
+                    except ExtractError as e:
+                        self.log.append({"rule": "X/closure-skipped", "fn": d.get("name"), "why": str(e)})
+                        self.out.append("// vx-skipped: lifted closure `%s` could not be extracted: %s" % (d.get("name"), str(e).replace("\n", " ")))
+                else:
+                    self.do_fn(d)
             elif st.startswith("//@assume_text "):
                 # the text an ASSUMED contract is about (e.g. serde attributes whose derive output is trusted) must be what was assumed
                 kv = parse_kv(st[len("//@assume_text "):])
